@@ -64,6 +64,26 @@ def ep_verdict(fi, fm):
     return None
 
 
+def joint_application_verdict(fi):
+    """C11 read on several patches applied at once (FixVulns, override, MaxUpgrades != 1): every applied update must move its package
+    strictly upward from the version the package resolves to in "original manifest + all OTHER applied updates" (field down= lists the
+    updates that do not).  The class C11/override-pin-overtaken excuses this only for patches whose fixed sets are pairwise disjoint
+    (overlap=0; see joint_application_class); with overlapping fixed sets it is a violation."""
+    r = fi.get('r', fi.get('_', ''))
+    if r != 'ok':
+        return 'FixVulns with several patches: ' + r
+    if fi.get('down', '-') not in ('-', ''):
+        return ('patches applied jointly (%s patches; fixed sets %s): the update(s) %s (package:written version:version it resolves to without that update, '
+                'the other applied updates in place) do not move the package strictly upward; all updates: %s'
+                % (fi.get('np'), 'OVERLAP' if fi.get('overlap') == '1' else 'pairwise disjoint', fi.get('down'), fi.get('jups')))
+    return None
+
+
+def joint_application_class(fi):
+    """the recorded finding covers jointly applied patches with pairwise disjoint fixed sets only"""
+    return 'C11/override-pin-overtaken' if fi.get('down', '-') not in ('-', '') and fi.get('overlap') == '0' else None
+
+
 def run(ctx):
     ctx.trusted = ['Lean 4.33.0 kernel', 'axioms: propext, Quot.sound, Classical.choice at most (see theorems.*.axioms)',
                    'deps.dev semver (Compare / Difference / ParseConstraint / MatchVersion) and the deps.dev resolvers: parameters, tabulated per case with the same libraries',
@@ -83,6 +103,7 @@ def run(ctx):
                 'up = a pom that declares the same groupId:artifactId several times with different versions (jar / test-jar / classifier variants in <dependencies>, dependencyManagement, a profile, a pluginManagement plugin; '
                 'versions across major and minor boundaries, ranges, unknown versions; per-package and default levels; IgnoreDev) through the real public Update, judged per requirement on result.Patches and per declaration on the re-read pom. thorough adds every subset of 6 versions x level x '
                 '1-2 chained vulnerabilities (override) and 25 requirements x 4 levels x 3 universes (relax). '
+                'ja = patches applied jointly through the public FixVulns (Maven/override, MaxUpgrades 0 / 2 / 3): foo (direct) brings bar; FOO on foo < 3.0.0, BAR on bar below 2.0.0 or 3.0.0 (and, in a third of the cases, again from 3.0.0 on), 0-3 vulnerabilities only the newest foo has (they decide whether the narrow override of bar or the parent upgrade of foo sorts first), bar also direct, NoIntroduce — all 192 combinations; every applied update is judged against the version its package resolves to in "original manifest + all OTHER applied updates" (re-resolved), excused by the recorded class only when the applied patches\' fixed sets are pairwise disjoint. '
                 'cf = --upgrade-config lists through the real NewConfigFromStrings: 1-6 entries over 1-3 packages from a pool of 17 names (plain, @scope/name, Maven g:a, names with three colons, empty segments, a name ending in a level word, '
                 'blanks, non-ASCII) + the default level as bare word or ":word", repeated packages, every fifth word not a level (unknown word, other case, blanks / tab around it, empty, a colon inside); queried: every named package, its '
                 'prefix before the first colon, its trimmed spelling, the default, an unnamed package; plus every pool name x every level x {alone, after a default, overwritten, followed by an invalid entry}. '
@@ -118,6 +139,8 @@ def run(ctx):
             return fi.get('cfg', '-') != '-'
         if op == 'ep':
             return True
+        if op == 'ja':
+            return fi.get('np', '0') not in ('0', '1')
         return r == 'ok' and fi.get('final') != case.split(' | ')[1].split(' ')[1]
 
     def oracle(case, fi, fm):
@@ -129,6 +152,8 @@ def run(ctx):
         if op == 'ep':
             v = ep_verdict(fi, fm)
             return ('entry point, kind %s (see Spec/EntryPoints.lean): ' % level + v) if v else None
+        if op == 'ja':
+            return joint_application_verdict(fi)
         if fi.get('cmp') == '0':
             return ('mavenutil.CompareVersions differs in sign from the specified order on a pair of versions of this universe (Maven order, in which different '
                     'spellings of one version are equal, with the guava-flavour and commons date-version exceptions)')
@@ -235,6 +260,8 @@ def run(ctx):
     def finding_class(case, fi, fm):
         if not agree(fi, fm):
             return None
+        if case.startswith('ja '):
+            return joint_application_class(fi)
         if case.startswith('up ') and 'pomd' in fm and fi.get('ups') == fm.get('ups') and fi.get('pomd') != fm.get('pomd'):
             return 'C11/pom-origin-ignored'      # the reported updates are right; the writer addressed the wrong one of two declarations with one key
         c = fm.get('cls', '-')
@@ -252,6 +279,8 @@ def run(ctx):
             return 'mo r=%s%s' % (r, extra)
         if op == 'rl':
             return 'rl r=%s patches=%s' % (r, fi.get('patches'))
+        if op == 'ja':
+            return 'ja r=%s np=%s down=%s overlap=%s' % (r, fi.get('np'), 'some' if fi.get('down', '-') not in ('-', '') else 'none', fi.get('overlap'))
         if op == 'ep':
             return 'ep want=%s outcome=%s' % (fm.get('want'), fi.get('outcome'))
         if op == 'cf':
